@@ -118,6 +118,17 @@ def run_direct(case):
             viol.setdefault("stream-undecodable", {"mech": "stream-undecodable", "msg": str(e), "witness": wit})
             continue
         structural(events, info, viol, "list %d on %s" % (li, acc), wit)
+        # 'waits precede the operation they guard': the same trace rule as C04, applied to the queue waits of this stream (block dependency is C04's alone)
+        from vv import hazard
+
+        hc = {}
+        try:
+            for f in hazard.check_stream(events, acc, hc, blockdep_checks=False):
+                mech = "wait-missing:%s:%s" % (f["kind"], f["clause"])
+                viol.setdefault(mech, {"mech": mech, "msg": "list %d on %s: %s on region %s bytes %s between [%s] and [%s]" % (li, acc, f["clause"], f["region"], f["range"], f["earlier"], f["later"]), "witness": wit})
+        except (ValueError, KeyError, IndexError):
+            counters["wait_rule_unmodelled_lists"] = counters.get("wait_rule_unmodelled_lists", 0) + 1
+        counters["wait_rule_conflicting_pairs"] = counters.get("wait_rule_conflicting_pairs", 0) + hc.get("guarded_conflicts", 0)
         opev = [ev for ev in events if ev.kind in ("op", "dma")]
         if len(opev) != len(ops):
             viol.setdefault("op-count", {"mech": "op-count", "msg": "%d operations given, %d NPU_OP commands emitted" % (len(ops), len(opev)), "witness": wit})
@@ -348,7 +359,7 @@ def summarise(agg, tier):
     q = tier == "quick"
     return {
         "thresholds": {"ops_decoded": 20000 if q else 600000, "elided_register_values": 500000 if q else 20000000, "lists": 2000 if q else 50000, "dma_ops": 2000 if q else 50000,
-                       "two_core_ops": 1000 if q else 30000, "multi_tile_fms": 2000 if q else 50000, "illegal_rejected": 50 if q else 1000, "pipeline_ops_decoded": 1000 if q else 15000},
+                       "two_core_ops": 1000 if q else 30000, "multi_tile_fms": 2000 if q else 50000, "illegal_rejected": 50 if q else 1000, "pipeline_ops_decoded": 1000 if q else 15000, "wait_rule_conflicting_pairs": 1000 if q else 30000},
         "rule": "direct: random legal op lists of length 1..30 over conv/depthwise/pool(MAX,AVERAGE,REDUCE_SUM)/elementwise(10 sub-ops)/DMA, 5 data types, NHWC/NHCWB16, 1-4 tiles, "
                 "explicit strides, upscaling, activations incl. table lookup 0-7, 6 accelerators; histories built from single-field variants, exact repeats and A,B,A returns so "
                 "that register elision is exercised; illegal: 5 classes of alignment/size violations; pipeline: every stream of real compilations. distinct = (accelerator, length, "
